@@ -1,9 +1,9 @@
-\* atomic record writes, completeness-based skipping: the resume property holds
+\* atomic record writes with completeness-based skipping, and the transcribed sqlite store: the resume property holds
 SPECIFICATION Spec
 CONSTANTS
   N = 4
   NCSets <- NCThorough
-  Configs <- IntendedConfigs
+  Configs <- HoldingConfigs
 INVARIANT TypeOK
 INVARIANT UninterruptedCompletes
 INVARIANT ResumeOK
